@@ -86,7 +86,7 @@ class State:
                 s = z3.ArraySort(z3.StringSort(), w.V)
             elif name in ("isdir", "isfile_extra", "unwritable", "unreadable"):
                 s = z3.ArraySort(z3.StringSort(), z3.BoolSort())
-            elif name in ("rand_ctr", "stdout", "ncalls"):
+            elif name in ("rand_ctr", "stdout", "ncalls", "nparse", "nload"):
                 s = z3.IntSort()
             else:
                 raise KeyError(name)
